@@ -556,7 +556,7 @@ def rule_map(ctx):
     R.floor('M5', 'MapWriter methods', len(mw), 4, props=P)
     for b in mw:
         cs = [c for c in b.calls.values() if type_head(c.impl_self or '') == 'std::collections::HashMap']
-        good = len(cs) == 1 and ctx.has_field(b.orig_operand(cs[0].args[0]), 'map') and ctx.has_field(b.orig_operand(cs[0].args[1]), 'key') and cs[0].name == {'entry': 'entry'}.get(b.name, b.name)
+        good = len(cs) == 1 and len(cs[0].args) > 1 and ctx.has_field(b.orig_operand(cs[0].args[0]), 'map') and ctx.has_field(b.orig_operand(cs[0].args[1]), 'key') and cs[0].name == {'entry': 'entry'}.get(b.name, b.name)
         R.ob('M5-own-key', b.path, good, 'MapWriter::%s addresses the writer\'s own key in its map' % b.name if good else 'MapWriter::%s does not address self.key with the same-named map operation' % b.name, ctx.where(b), props=P)
     # M6
     mc = [b for b in F.bodies.values() if b.impl_trait == 'pie::ResourceChecker' and b.impl_self == 'pie::resource::map::MapEqualsChecker' and b.kind == 'AssocFn']
